@@ -1,7 +1,7 @@
 package sim
 
 import (
-	"crypto/ecdsa"
+	"crypto/rsa"
 	"errors"
 	"fmt"
 
@@ -14,7 +14,7 @@ import (
 
 // Fault kinds assignable to one signer call / one verifier call.
 var (
-	c20SignKinds   = []string{"ok", "signer.err", "signer.empty", "signer.nil", "signer.bytes+err", "hsm.err", "hsm.badDER", "entropy.err@k", "entropy.short"}
+	c20SignKinds   = []string{"ok", "signer.err", "signer.empty", "signer.nil", "signer.bytes+err", "hsm.err", "hsm.badDER", "hsm.empty", "entropy.err@k", "entropy.short"}
 	c20VerifyKinds = []string{"ok", "verifier.err"}
 )
 
@@ -87,7 +87,7 @@ func init() {
 	Infos["C20"] = ScenarioInfo{
 		Level: "fault_enumeration",
 		Rule: fmt.Sprintf("one run = one signing or verifying entry point (Sign1, Sign1Untagged, Sign1Message.Sign, Signature.Sign, Countersignature.Sign, Countersign0, SignHashEnvelope, SignMessage.Sign with n <= %d signers; Sign1Message.Verify, Signature.Verify, Countersignature.Verify, VerifyCountersign0, VerifyHashEnvelope, SignMessage.Verify with n <= %d verifiers) "+
-			"driven under one fault vector: each signer call is assigned one of {ok, signer.err, signer.empty, signer.nil, signer.bytes+err, hsm.err, hsm.badDER, entropy.err@k, entropy.short}, each verifier call one of {ok, verifier.err}. "+
+			"driven under one fault vector: each signer call is assigned one of {ok, signer.err, signer.empty, signer.nil, signer.bytes+err, hsm.err, hsm.badDER, hsm.empty, entropy.err@k, entropy.short}, each verifier call one of {ok, verifier.err}. "+
 			"The thorough tier enumerates ALL %d (entry point, n, vector) combinations, each under %d tape-drawn contexts (headers, payload, keys/algorithms, external data, k); the quick tier samples vectors from the tape. "+
 			"Oracle: any error kind => the call returns a non-nil error that wraps the injected one, returns no bytes, leaves the failing slot's signature empty, MarshalCBOR of the message errors, and no later signer/verifier was called; an empty-returning signer must surface as an error by MarshalCBOR at the latest and no helper returns bytes; entropy.short => success and the signature verifies; "+
 			"verifier.err at any position is returned, never nil, and later verifiers are not consulted; the reference parser finds no zero-length signature in anything emitted. "+
@@ -104,6 +104,8 @@ func init() {
 type c20Call struct {
 	kind   string
 	key    *KeyPair
+	bare   cose.Signer // when set, the built-in signer is handed to go-cose unwrapped (it then also implements DigestSigner)
+	hsmN   int         // calls seen by the HSM stub underneath
 	spy    *SpySigner
 	ent    *Entropy
 	isErr  func() bool // the call (if made) fails
@@ -113,9 +115,13 @@ type c20Call struct {
 func (r *Run) c20Signer(t *tape.Tape, kind string, log *[]string, tag string) *c20Call {
 	c := &c20Call{kind: kind}
 	switch kind {
-	case "hsm.err", "hsm.badDER":
+	case "hsm.err", "hsm.badDER", "hsm.empty":
 		c.key = poolEC[t.Choose(6, "c20.key.ec")] // P-256 / P-384
-		hsm := &HSM{Key: c.key.Priv.(*ecdsa.PrivateKey), Mode: kind[4:]}
+		if kind == "hsm.empty" && t.Bool(1, 2, "c20.key.hsm.rsa") {
+			c.key = poolRSA[t.Choose(2, "c20.key.rsa")]
+		}
+		_, isRSAKey := c.key.Pub.(*rsa.PublicKey)
+		hsm := &HSM{Key: c.key.Priv, Mode: kind[4:], Calls: &c.hsmN}
 		var inner cose.Signer
 		var err error
 		r.Lib(func() { inner, err = cose.NewSigner(cose.Algorithm(c.key.Alg), hsm) })
@@ -123,7 +129,14 @@ func (r *Run) c20Signer(t *tape.Tape, kind string, log *[]string, tag string) *c
 			r.Skip("NewSigner over the HSM stub failed: " + err.Error())
 		}
 		c.spy = &SpySigner{Inner: inner, Alg: inner.Algorithm(), Log: log, Tag: tag}
-		c.isErr = func() bool { return true }
+		if t.Bool(1, 2, "c20.bare") {
+			// no wrapper: go-cose sees its own signer type (the fault sits
+			// underneath, in the crypto.Signer)
+			c.bare = inner
+		}
+		// a device that returns nothing: an RSA one yields an empty signature,
+		// an ECDSA one unparsable ASN.1, i.e. an error
+		c.isErr = func() bool { return kind != "hsm.empty" || !isRSAKey }
 		if kind == "hsm.err" {
 			c.inject = ErrHSM
 		}
@@ -170,7 +183,29 @@ func (r *Run) c20Signer(t *tape.Tape, kind string, log *[]string, tag string) *c
 	return c
 }
 
-func (c *c20Call) isEmptyKind() bool { return c.kind == "signer.empty" || c.kind == "signer.nil" }
+func (c *c20Call) isEmptyKind() bool {
+	if c.kind == "hsm.empty" {
+		_, isRSA := c.key.Pub.(*rsa.PublicKey)
+		return isRSA
+	}
+	return c.kind == "signer.empty" || c.kind == "signer.nil"
+}
+
+// signer is what is handed to go-cose.
+func (c *c20Call) signer() cose.Signer {
+	if c.bare != nil {
+		return c.bare
+	}
+	return c.spy
+}
+
+// made reports whether the call reached the seam.
+func (c *c20Call) made() bool {
+	if c.bare != nil {
+		return c.hsmN > 0
+	}
+	return len(c.spy.Calls) > 0
+}
 
 // noEmptySignature checks emitted bytes with the reference parser.
 func (r *Run) noEmptySignature(what string, b []byte) {
@@ -253,49 +288,49 @@ func c20Sign(r *Run, t *tape.Tape, e c20Entry, n int, vec []int) {
 	case "Sign1()":
 		isHelper = true
 		h := hdr(c0.key)
-		r.Lib(func() { out, err = cose.Sign1(ent, c0.spy, h, payload, external) })
+		r.Lib(func() { out, err = cose.Sign1(ent, c0.signer(), h, payload, external) })
 	case "Sign1Untagged()":
 		isHelper = true
 		h := hdr(c0.key)
-		r.Lib(func() { out, err = cose.Sign1Untagged(ent, c0.spy, h, payload, external) })
+		r.Lib(func() { out, err = cose.Sign1Untagged(ent, c0.signer(), h, payload, external) })
 	case "SignHashEnvelope()":
 		isHelper = true
 		external = nil
 		a := c0.key.Alg
 		h := libHeaders(envelopeSafe(genLayer(t, LayerOpts{MaxExtra: 2, Alg: &a})), Spelling{T: t}, true)
 		p := cose.HashEnvelopePayload{HashAlgorithm: cose.AlgorithmSHA256, HashValue: t.Bytes(32, "c20.digest")}
-		r.Lib(func() { out, err = cose.SignHashEnvelope(ent, c0.spy, h, p) })
+		r.Lib(func() { out, err = cose.SignHashEnvelope(ent, c0.signer(), h, p) })
 	case "Sign1Message.Sign":
 		m := &cose.Sign1Message{Headers: hdr(c0.key), Payload: payload}
-		r.Lib(func() { err = m.Sign(ent, external, c0.spy) })
+		r.Lib(func() { err = m.Sign(ent, external, c0.signer()) })
 		slots = func() [][]byte { return [][]byte{m.Signature} }
 		marshal = m.MarshalCBOR
 		verifyAll = func() error { return m.Verify(external, r.verifierFor(c0.key, false)) }
 	case "Signature.Sign":
 		s := &cose.Signature{Headers: hdr(c0.key)}
 		body := []byte{0x40}
-		r.Lib(func() { err = s.Sign(ent, c0.spy, body, payload, external) })
+		r.Lib(func() { err = s.Sign(ent, c0.signer(), body, payload, external) })
 		slots = func() [][]byte { return [][]byte{s.Signature} }
 		marshal = s.MarshalCBOR
 		verifyAll = func() error { return s.Verify(r.verifierFor(c0.key, false), body, payload, external) }
 	case "Countersignature.Sign":
 		parent := c04Parent(r, ent)
 		cs := &cose.Countersignature{Headers: hdr(c0.key)}
-		r.Lib(func() { err = cs.Sign(ent, c0.spy, parent, external) })
+		r.Lib(func() { err = cs.Sign(ent, c0.signer(), parent, external) })
 		slots = func() [][]byte { return [][]byte{cs.Signature} }
 		marshal = cs.MarshalCBOR
 		verifyAll = func() error { return cs.Verify(r.verifierFor(c0.key, false), parent, external) }
 	case "Countersign0()":
 		parent := c04Parent(r, ent)
 		plainSig = true
-		r.Lib(func() { out, err = cose.Countersign0(ent, c0.spy, parent, external) })
+		r.Lib(func() { out, err = cose.Countersign0(ent, c0.signer(), parent, external) })
 		verifyAll = func() error { return cose.VerifyCountersign0(r.verifierFor(c0.key, false), parent, external, out) }
 	case "SignMessage.Sign":
 		m := &cose.SignMessage{Headers: libHeaders(genLayer(t, LayerOpts{MaxExtra: 2}), Spelling{T: t}, false), Payload: payload}
 		signers := make([]cose.Signer, n)
 		for i, c := range calls {
 			m.Signatures = append(m.Signatures, &cose.Signature{Headers: hdr(c.key)})
-			signers[i] = c.spy
+			signers[i] = c.signer()
 		}
 		r.Lib(func() { err = m.Sign(ent, external, signers...) })
 		slots = func() [][]byte {
@@ -319,7 +354,7 @@ func c20Sign(r *Run, t *tape.Tape, e c20Entry, n int, vec []int) {
 	fired := make([]string, n)
 	for i, c := range calls {
 		fired[i] = c.kind
-		made := len(c.spy.Calls) > 0
+		made := c.made()
 		switch {
 		case c.kind == "ok":
 		case c.kind == "entropy.err@k" || c.kind == "entropy.short":
@@ -361,6 +396,11 @@ func c20Sign(r *Run, t *tape.Tape, e c20Entry, n int, vec []int) {
 			fmt.Sscanf(l, "sign:%d", &idx)
 			if idx > firstErr {
 				r.Fail("signing-continues-after-failure"+sig, "signer %d was called although signer %d had failed", idx, firstErr)
+			}
+		}
+		for i, oc := range calls {
+			if i > firstErr && oc.bare != nil && oc.hsmN > 0 {
+				r.Fail("signing-continues-after-failure"+sig, "the key of signer %d was used although signer %d had failed", i, firstErr)
 			}
 		}
 		if slots != nil {
